@@ -22,8 +22,9 @@ type zzProg struct {
 	body    []byte
 	first   bool // set status before (true) or after (false) the body call
 	close   bool
-	flushes int // mode 6: flush after each write (1) or not (0)
-	cut     int // mode 6: the body is written as body[:cut], body[cut:]
+	flushes int  // mode 6: flush after each write (1) or not (0)
+	cut     int  // mode 6: the body is written as body[:cut], body[cut:]
+	hv      byte // a symbolic byte in the value of a header field the handler sets
 }
 
 func zzApply(ctx *app.RequestContext, p *zzProg) {
@@ -34,7 +35,7 @@ func zzApply(ctx *app.RequestContext, p *zzProg) {
 		if p.close {
 			ctx.Response.Header.SetConnectionClose(true)
 		}
-		ctx.Response.Header.Set("X-P", "1")
+		ctx.Response.Header.Set("X-P", string([]byte{'v', p.hv}))
 	}
 	if p.first {
 		ctx.SetStatusCode(p.status)
@@ -76,7 +77,7 @@ func zzApply(ctx *app.RequestContext, p *zzProg) {
 	if p.close {
 		ctx.Response.Header.SetConnectionClose(true)
 	}
-	ctx.Response.Header.Set("X-P", "1")
+	ctx.Response.Header.Set("X-P", string([]byte{'v', p.hv}))
 }
 
 func zzChooseProg(i int) *zzProg {
@@ -85,6 +86,7 @@ func zzChooseProg(i int) *zzProg {
 	p.mode = zz.Choose("mode", 9)
 	l := zz.Range("len", 0, zz.Param("L", 3))
 	p.body = zz.Bytes("body", l)
+	p.hv = zz.Byte("headerValueByte")
 	p.first = zz.Choose("statusfirst", 2) == 1
 	p.close = zz.Choose("close", 2) == 1
 	if p.mode == 6 {
